@@ -19,5 +19,11 @@ for d in sorted(os.listdir(hroot)):
         except vlib.Infra as e:
             ok = False
             print("BUILD FAILED", d, e)
+try:
+    _, t = vlib.build("hidi", pkgpath="./cmd/hidi", out=os.path.join(vlib.BUILD, "bin", "hidi_hook"), overlay=ov)
+    print("built cmd/hidi hook binary in %.1fs" % t)
+except vlib.Infra as e:
+    ok = False
+    print("BUILD FAILED cmd/hidi", e)
 sys.exit(0 if ok else 1)
 PY
